@@ -367,8 +367,8 @@ def run_variant(c, runner, hist, work, tag):
         shutil.copytree(os.path.join(pre, "user", "build"), os.path.join(root, "shared", "build"))
     w = None
     if mode == "same_process" and len(states) >= 2:
-        # the last state is written next to the workspace and copied over it (modification times kept) between the two
-        # deployments of the last process; a history whose last step removes a file is not driven this way
+        # the last state is written next to the workspace and copied over it (modification times kept; files it no longer has
+        # removed) between the two deployments of the last process
         nxt = os.path.join(work, tag + "_next")
         shutil.rmtree(nxt, ignore_errors=True)
         os.makedirs(nxt)
@@ -380,8 +380,10 @@ def run_variant(c, runner, hist, work, tag):
         t = tasks_for(w, root)
         env = {"VERIF_TASKS": t} if t else {}
         if mode == "same_process" and i == len(states) - 1:
-            env["VERIF_BETWEEN"] = "cp -a %s/shared/. %s/shared/ && cp -a %s/user/. %s/user/" % (nxt, root, nxt, root)
-            w = dc.Workspace.from_json(hist["steps"][-1])
+            w2 = dc.Workspace.from_json(hist["steps"][-1])
+            gone = [os.path.join(root, rel) for rel in w.files if rel not in w2.files]
+            env["VERIF_BETWEEN"] = "cp -a %s/shared/. %s/shared/ && cp -a %s/user/. %s/user/" % (nxt, root, nxt, root) + "".join(" && rm -f '%s'" % g for g in gone)
+            w = w2
         r = runner.deploy(root, w.clock + 3 - (4 if "VERIF_BETWEEN" in env else 0), extra_env=env or None)
         if "VERIF_BETWEEN" in env:
             shutil.rmtree(nxt, ignore_errors=True)
@@ -812,6 +814,30 @@ def directed_histories(far=True):
     mk("vocabulary filters of a pack compiled earlier in the same deployment (both on the named vocabulary): the later pack edited alone",
        ("row_add pk2", edit("pk2.dict.yaml", lambda f: f["rows"].append(["们", "ba", 9]))),
        ("row_add pk1 (the filtering one) alone", edit("pk1.dict.yaml", lambda f: f["rows"].append(["们", "bo", 9]))))
+    mk("entries that start with # after `# no comment`: an edit confined to them -> table, reverse db",
+       ("hash_row da: text changed", edit("da.dict.yaml", lambda f: f["hash_rows"].__setitem__(0, ["#" + dc.HAN[41], "ba", 33]))),
+       ("hash_row da: entry added", edit("da.dict.yaml", lambda f: f["hash_rows"].append(["#more", "de", 5]))),
+       ("hash_row dx: first such entry of an imported table", edit("dx.dict.yaml", lambda f: f.__setitem__("hash_rows", [["#x", "ba", 4]]))),
+       ("hash_row dx: weight changed", edit("dx.dict.yaml", lambda f: f.__setitem__("hash_rows", [["#x", "ba", 40]]))))
+
+    def override_on(n, mut):
+        def fn(w):
+            f = {k: copy.deepcopy(v) for k, v in w.files["shared/" + n].items() if k != "mtime"}
+            mut(f)
+            w.put("user/" + n, f)
+        return fn
+    # a name starts (stops) resolving to a copy in the user directory; each of these also runs with the last two deployments
+    # in one process (variant same_process), once ending on the appearance and once on the disappearance
+    mk("override: a user copy of the preset vocabulary shadows the shared one, then goes",
+       ("override_on essay.txt", override_on("essay.txt", lambda f: f.__setitem__("rows", [[t, 500 - wt] for t, wt in f["rows"] if t][:-1]))),
+       ("override_off essay.txt", lambda w: w.remove("user/essay.txt")))
+    mk("override: a user copy of the named vocabulary shadows the shared one, then goes",
+       ("override_on lexicon.txt", override_on("lexicon.txt", lambda f: f.__setitem__("rows", [[t, 400 - wt] for t, wt in f["rows"]]))),
+       ("override_off lexicon.txt", lambda w: w.remove("user/lexicon.txt")))
+    mk("override: a user copy of an included config and of an imported table shadow the shared ones, then go",
+       ("override_on common.yaml, dx.dict.yaml", lambda w: (override_on("common.yaml", lambda f: f["rules"].append("derive/^h/f/"))(w),
+                                                            override_on("dx.dict.yaml", lambda f: f["rows"].append(["哦", "ou", 66]))(w))),
+       ("override_off common.yaml, dx.dict.yaml", lambda w: (w.remove("user/common.yaml"), w.remove("user/dx.dict.yaml"))))
     mk("files that come and go with old modification times: only the directory shows it (cp -p, rm)",
        ("old_mtime sa.custom", lambda w: w.put("user/sa.custom.yaml", {"kind": "custom", "patch": [["menu/page_size", 7]], "skew": -500000})),
        ("custom_off sa", lambda w: w.remove("user/sa.custom.yaml")),
@@ -1001,11 +1027,11 @@ def run(c):
                     + [("prebuild", h) for h in pick("imported table ->")]
                     + [("piecewise", h) for h in pick("included config ->", "default.custom appears")]
                     + [("verbose", h) for h in pick("preset vocabulary ->")]
-                    + [("same_process", h) for h in pick("preset vocabulary ->", "vocabulary file of another name", "schema algebra")])
+                    + [("same_process", h) for h in pick("preset vocabulary ->")]
+                    + [("same_process", hh) for h in pick("override:") for hh in (h, dict(h, steps=h["steps"][:1], edits=h["edits"][:1]))])
     else:
         ok_final = [h for h in base_dir if dc.Workspace.from_json(h["steps"][-1]).deployable() and not h.get("tamper") and not h.get("legacy_symlinks")]
-        no_rm = [h for h in ok_final if set(h["steps"][-1]["files"]) >= set((h["steps"][-2] if len(h["steps"]) > 1 else h["base"])["files"])]
-        variants = [("same_process", h) for h in no_rm] + [(m, h) for m in ("prebuilt", "prebuild", "piecewise", "verbose") for h in ok_final
+        variants = [("same_process", hh) for h in ok_final for hh in ([h] + ([dict(h, steps=h["steps"][:1], edits=h["edits"][:1])] if "override:" in h["directed"] else []))] + [(m, h) for m in ("prebuilt", "prebuild", "piecewise", "verbose") for h in ok_final
                     if not (m in ("prebuild", "piecewise") and ("user cop" in h["directed"] or "multi-part" in h["directed"]))]
     for i, (mode, hist) in enumerate(variants):
         h2 = dict(hist, variant=mode)
